@@ -697,6 +697,38 @@ def run(ctx, report):
                                  % (pk, kstr, npname, ','.join(msig), ' | '.join(','.join(a) for a in want), ent['line']), where(arch, chain),
                                  witness='66 0f d6 c1 renders movq ecx, xmm0' if kstr == '0F D6' else None)
 
+    # ---------------------------------------------------------------- D6 ModRM byte pre-processing of special register files
+    R6 = report.rule('C01.D6', 'control/debug register moves ignore ModRM.mod; segment register numbers 6 and 7 are rejected', floor=20)
+    base_mod = dict((E[k], None) for k in ('w8', 'se', 'sw', 'sd', 'wd', 'mmx', 'sg', 'cr', 'dr'))
+    for label, key in (('control', 'cr'), ('debug', 'dr')):
+        mods = dict(base_mod)
+        mods[E[key]] = True
+        for c in (0x00, 0x04, 0x45, 0x80, 0xC1, 0x3F):
+            got = X.dis_rmr_pre(mods, c)
+            inst = 'mov %s-register ModRM %02X' % (label, c)
+            if got == (c | 0xC0):
+                R6.ok(inst, sample='%s: r/m is read as a register whatever mod says (%02X -> %02X)' % (inst, c, got))
+            else:
+                R6.violation(inst, 'modrm-pre:%s:mod' % key, 'for mov to/from %s registers the decoder hands ModRM %02X to the addressing tables as %s: IA-32 ignores mod and always names a general register'
+                             % (label, c, ('%02X' % got) if isinstance(got, int) else got), where(arch, dis), witness='0f 20 00 is mov eax, cr0 (3 bytes)')
+    mods = dict(base_mod)
+    mods[E['sg']] = True
+    for reg in range(8):
+        c = 0xC0 | (reg << 3)
+        got = X.dis_rmr_pre(mods, c)
+        inst = 'mov segment register %d' % reg
+        want_rej = reg > 5
+        if (got == 'rejected') == want_rej and (want_rej or got == c):
+            R6.ok(inst, sample='segment register number %d: %s' % (reg, 'rejected' if want_rej else 'decoded'))
+        else:
+            R6.violation(inst, 'modrm-pre:sg:%d' % reg, 'mov with segment register number %d is %s; IA-32 has six segment registers (0..5)' % (reg, 'rejected' if got == 'rejected' else 'decoded'),
+                         where(arch, dis), witness='8c f0 decodes and its rendering raises AttributeError')
+    plain = X.dis_rmr_pre(base_mod, 0x45)
+    if plain == 0x45:
+        R6.ok('plain ModRM', sample='ordinary rows: ModRM byte unchanged')
+    else:
+        R6.violation('plain ModRM', 'modrm-pre:plain', 'ordinary reg,r/m rows get their ModRM byte changed to %s' % plain, where(arch, dis))
+
     strm = arch.method('x86_mn', '__str__')
     pops = [n for n in walk_no_nested(strm) if isinstance(n, ast.Call) and u(n.func) == 'prefix.pop' and not n.args]
     idx = [n for n in walk_no_nested(strm) if isinstance(n, ast.Call) and u(n.func) == 'mmx_prefixes.index']
@@ -710,6 +742,8 @@ def run(ctx, report):
 
 
 MUTANTS = [
+    ('crdr-mod-honoured', 'miasmx/arch/ia32_arch.py', "                        c |= 0xC0\n", "                        pass\n", 'C01.D6'),
+    ('sreg-6-7-decoded', 'miasmx/arch/ia32_arch.py', "                    if m.modifs[sg] and ((c>>3)&7) > 5:", "                    if m.modifs[sg] and ((c>>3)&7) > 7:", 'C01.D6'),
     ('sse-whole-prefix-list', 'miasmx/arch/ia32_arch.py', "            sse_prefix = [_ for _ in read_prefix if _ in mmx_prefixes[1:]]", "            sse_prefix = read_prefix", 'C01.D5'),
     ('str-prefix-pop', 'miasmx/arch/ia32_arch.py', "            sse = [_ for _ in prefix if _ in mmx_prefixes[1:]]\n            if len(sse) == 0: p = 0\n            else:\n                p = sse[-1]\n                prefix.remove(p)", "            if len(prefix) == 0: p = 0\n            else: p = prefix.pop()", 'C01.D5'),
     ('sse-pi2ps-file', 'miasmx/arch/ia32_arch.py', "                        elif '#pi2ps' in m.name:\n                            self.opmode = xmm\n                            if sse_prefix == [] or sse_prefix == [0x66]:\n                                self.admode = mm", "                        elif '#pi2ps' in m.name:\n                            self.opmode = xmm\n                            if sse_prefix == [] or sse_prefix == [0x66]:\n                                self.admode = xmm", 'C01.D5'),
